@@ -57,6 +57,8 @@ func main() {
 		os.Exit(cmdCheck(os.Args[2:]))
 	case "dump":
 		os.Exit(cmdDump(os.Args[2:]))
+	case "replay":
+		os.Exit(cmdReplay(os.Args[2:]))
 	default:
 		fmt.Fprintln(os.Stderr, "unknown command", os.Args[1])
 		os.Exit(2)
@@ -963,4 +965,70 @@ func pruneOutDirs(root string) {
 func lastLine(s string) string {
 	lines := strings.Split(strings.TrimSpace(s), "\n")
 	return lines[len(lines)-1]
+}
+
+// cmdReplay re-runs what a replay file records against the current tree: it prints the failed obligation,
+// the solver's answer and the stored failing input (if any), then runs the property's bounded replay
+// harness(es) on the real code again.  Exit 1 when a failing input is reproduced now, 0 otherwise.
+func cmdReplay(args []string) int {
+	fs := flag.NewFlagSet("replay", flag.ExitOnError)
+	repo := fs.String("repo", "/repo", "repository root")
+	verif := fs.String("verif", "/verif", "verification root")
+	fs.Parse(args)
+	if fs.NArg() != 1 {
+		fmt.Fprintln(os.Stderr, "usage: vcheck replay <replay file>")
+		return 2
+	}
+	data, err := os.ReadFile(fs.Arg(0))
+	if err != nil {
+		fmt.Fprintln(os.Stderr, "error:", err)
+		return 2
+	}
+	var rec map[string]interface{}
+	if err := json.Unmarshal(data, &rec); err != nil {
+		fmt.Fprintln(os.Stderr, "error:", err)
+		return 2
+	}
+	pid, _ := rec["property"].(string)
+	fmt.Printf("property:    %v\nobligation:  %v\nclause:      %v\nposition:    %v\nsolver:      %v\n", pid, rec["obligation"], rec["clause"], rec["position"], rec["solver_result"])
+	if cx, ok := rec["counterexample"]; ok {
+		b, _ := json.MarshalIndent(cx, "  ", " ")
+		fmt.Printf("stored failing input(s):\n  %s\n", b)
+	} else {
+		fmt.Println("stored failing input: none (no-failing-input-found); solver output follows")
+		fmt.Println(rec["solver_output"])
+	}
+	props, err := loadProps(*verif)
+	if err != nil || props[pid] == nil {
+		fmt.Fprintln(os.Stderr, "error: unknown property in replay file")
+		return 2
+	}
+	ps := props[pid]
+	var specs []*ReplaySpec
+	if ps.Replay != nil {
+		specs = append(specs, ps.Replay)
+	}
+	for i := range ps.ReplayMore {
+		specs = append(specs, &ps.ReplayMore[i])
+	}
+	ob, _ := rec["obligation"].(string)
+	repro := false
+	for _, rs := range specs {
+		c := runReplay(rs, *repo, *verif, ob, pid, 0)
+		fmt.Printf("--- harness %s (%s) on %s: %s\n", rs.Run, rs.File, *repo, c.Outcome)
+		for _, ln := range strings.Split(c.Log, "\n") {
+			t := strings.TrimSpace(ln)
+			if strings.HasPrefix(t, "REPRODUCED") || strings.HasPrefix(t, "NOT-REPRODUCED") {
+				fmt.Println(t)
+			}
+		}
+		if c.Reproduced {
+			repro = true
+			break
+		}
+	}
+	if repro {
+		return 1
+	}
+	return 0
 }
